@@ -485,6 +485,101 @@ class Worker:
         img = SecureBootV1(version="1.0", dek=sup.get("dek"), mac=sup.get("mac"))
         return [self._o("dek", img._dek, sup), self._o("mac", img._mac, sup)]
 
+    # ---------------------------------------------------------------- rebuilds into ONE directory (the DEK file of build k is there for build k+1)
+    SAME_BD_DIR = "rt1165_semcnand_encrypted_random"
+    SAME_BD_DEK = os.path.join("gen_hab_encrypt", "evkmimxrt1064_iled_blinky_SDRAM_hab_dek.bin")
+    SAME_BD_APP = "evkmimxrt1064_iled_blinky_SDRAM.s19"
+
+    def samedir_prepare(self, item):
+        import shutil
+        d = item["dir"]
+        if item.get("fresh", True):
+            shutil.rmtree(d, ignore_errors=True)
+            if item["mode"] == "container":
+                src = os.path.join(self.repo, "tests", "nxpimage", "data", "hab", "export")
+                shutil.copytree(os.path.join(src, self.SAME_BD_DIR), d)
+                for n in ("keys", "crts"):
+                    shutil.copytree(os.path.join(src, n), os.path.join(d, n))
+                with open(os.path.join(d, "config.bd")) as fh:
+                    bd = fh.read()
+                assert "SecretKey_TargetIndex=0)" in bd and "reusedek" not in bd.lower()
+                with open(os.path.join(d, "config_reuse.bd"), "w") as fh:
+                    fh.write(bd.replace("SecretKey_TargetIndex=0)", "SecretKey_TargetIndex=0,\n    SecretKey_ReuseDek=true)"))
+            else:
+                os.makedirs(d)
+            if item.get("init"):
+                self._write(self.samedir_file(item), bytes.fromhex(item["init"]))
+
+    def samedir_file(self, item):
+        return os.path.join(item["dir"], self.SAME_BD_DEK if item["mode"] == "container" else "hab_dek.bin")
+
+    @staticmethod
+    def _write(path, data):
+        os.makedirs(os.path.dirname(path), exist_ok=True)
+        with open(path, "wb") as fh:
+            fh.write(data)
+
+    @staticmethod
+    def _read(path):
+        if not os.path.exists(path):
+            return None
+        with open(path, "rb") as fh:
+            return fh.read()
+
+    def samedir_build(self, item, reuse):
+        d = item["dir"]
+        if item["mode"] == "container":
+            # exactly what `nxpimage hab export -c config.bd <app>` does
+            from spsdk.image.hab.hab_container import HabContainer
+            cfg_path = os.path.join(d, "config_reuse.bd" if reuse else "config.bd")
+            config = HabContainer.load_configuration(cfg_path, [os.path.join(d, self.SAME_BD_APP)], search_paths=[d])
+            hab = HabContainer.load_from_config(config, search_paths=[d])
+            image = hab.export()
+            if not (hab.is_encrypted and image):
+                raise RuntimeError("container is not encrypted / empty")
+            return hab.csf_segment.dek
+        from spsdk.image.hab.commands.commands_enum import SecCommand
+        from spsdk.image.hab.hab_config import CommandsConfig, HabConfig
+        from spsdk.image.hab.segments import CsfHabSegment
+        from spsdk.utils.images import BinaryImage
+        opts = [{"SecretKey_Name": "hab_dek.bin"}, {"SecretKey_Length": item["bits"]}]
+        if reuse:
+            opts.append({"SecretKey_ReuseDek": 1})
+        cmds = CommandsConfig.load_from_config({"sections": [{"section_id": SecCommand.INSTALL_SECRET_KEY.tag, "options": opts}]})
+        cfg = HabConfig(app_image=BinaryImage("app", binary=bytes(64)), options=None, commands=cmds)  # type: ignore[arg-type]
+        return CsfHabSegment.get_dek_from_config(cfg, search_paths=[d])
+
+    def run_samedir(self, item):
+        from spsdk.exceptions import SPSDKError
+        self.samedir_prepare(item)
+        path = self.samedir_file(item)
+        out = []
+        for si, st in enumerate(item["steps"]):
+            self.epoch = (item["id"], si)
+            here = self.epoch
+            before = self._read(path)
+            rec = {"step": st, "before": None if before is None else before.hex()}
+            if st.startswith("p"):
+                self._write(path, bytes.fromhex(st[1:]))
+            elif st == "x":
+                if os.path.exists(path):
+                    os.remove(path)
+            else:
+                try:
+                    dek = self.samedir_build(item, st == "b1")
+                    rec["dek"] = None if dek is None else bytes(dek).hex()
+                    if dek is not None:
+                        rec.update(self.describe(bytes(dek), here))
+                except SPSDKError as exc:
+                    rec["err"] = f"E:spsdk {str(exc)[:100]}"
+                except Exception as exc:  # noqa: BLE001
+                    rec["err"] = f"E:other {type(exc).__name__} {str(exc)[:100]}"
+            after = self._read(path)
+            rec["after"] = None if after is None else after.hex()
+            self.epoch = (item["id"], -1)
+            out.append(rec)
+        return {"id": item["id"], "steps": out}
+
     # ---------------------------------------------------------------- commands
     def run_history(self, hid, builds):
         from spsdk.exceptions import SPSDKError
@@ -604,6 +699,8 @@ class Worker:
                     ans = self.rng_probe()
                 elif cmd == "histories":
                     ans = [self.run_history(h["id"], h["builds"]) for h in req["items"]]
+                elif cmd == "samedir":
+                    ans = [self.run_samedir(it) for it in req["items"]]
                 elif cmd == "quit":
                     break
                 else:
@@ -1023,7 +1120,121 @@ def stream_import(ck, drv, tab, w):
     return s
 
 
-def stream_restart(ck, scratch):
+SAMEDIR_RULE = ("rebuilds INTO ONE DIRECTORY (the DEK file `SecretKey_Name` written by build k exists for build k+1): random sequences of "
+                "{build without ReuseDek, build with ReuseDek=1, user places an own key file, user cleans the directory} for (a) the complete encrypted "
+                "HAB container exactly as `nxpimage hab export` builds it (HabContainer.load_configuration of the BD file of the repository's test data, "
+                "flags 0x0C, load_from_config, export) and (b) CsfHabSegment.get_dek_from_config alone (128/192/256 bit); continued by two more builds "
+                "in each of the fresh unpatched interpreters of the restart stream.  Oracle: a build without ReuseDek never raises, its DEK differs from "
+                "every earlier DEK / key file of the directory and is what the file holds afterwards; with ReuseDek=1 the DEK is the file's content "
+                "(SPSDKError without file).  Correspondence: the sequence on `runF` (Model/FreshFile.lean) with the guard kind of the generated "
+                "secretSources row; non-trivial = at least two builds without ReuseDek")
+
+
+def gen_samedir(rng, idx, scratch, mode):
+    bits = 256 if mode == "container" else rng.choice([128, 192, 256])
+    n = rng.randint(2, 3) if mode == "container" else rng.randint(2, 6)
+    steps = []
+    for _ in range(n):
+        r = rng.random()
+        steps.append("b0" if r < 0.6 else "b1" if r < 0.75 else ("p" + rhex(rng, bits // 8)) if r < 0.9 else "x")
+    while sum(1 for x in steps if x == "b0") < 2:
+        steps.insert(rng.randrange(len(steps) + 1), "b0")
+    return {"id": f"sd{idx}", "dir": os.path.join(scratch, f"same_{mode}_{idx}"), "mode": mode, "bits": bits, "fresh": True,
+            "init": rhex(rng, bits // 8) if rng.random() < 0.2 else None, "steps": steps}
+
+
+def check_samedir(ck, s, drv, sources, item, recs, state):
+    """oracle + model for the steps `recs` of one directory; `state` carries the directory's history across processes"""
+    inp = {"samedir": {k: item[k] for k in ("mode", "bits", "init", "steps")}, "earlier_steps_in_this_directory": list(state["steps"])}
+    if not state["steps"] and item.get("init"):
+        state["uid"][item["init"]] = len(state["uid"])
+        state["init"] = state["uid"][item["init"]]
+    real = []
+    for rec in recs:
+        st = rec["step"]
+        state["steps"].append(st if not st.startswith("p") else "p" + str(state["uid"].setdefault(st[1:], len(state["uid"]))))
+        if st.startswith("p") or st == "x":
+            real.append("-")
+            continue
+        reuse = st == "b1"
+        if "err" in rec:
+            real.append("E")
+            if not reuse:
+                s.expect(False, inp, "a HAB build without ReuseDek raised", rec["err"])
+            else:
+                s.expect(rec["before"] is None and rec["err"].startswith("E:spsdk"), inp,
+                         "a HAB build with ReuseDek=1 raised although the key file exists (or raised something else than SPSDKError)", rec["err"])
+            continue
+        dek = rec.get("dek")
+        if reuse:
+            s.expect(rec["before"] is not None and dek == rec["before"] and rec["after"] == rec["before"], inp,
+                     "with ReuseDek=1 the DEK is not the content of the key file (or the file was changed / invented)",
+                     {"dek": dek, "file_before": rec["before"], "file_after": rec["after"]})
+        else:
+            s.expect(dek is not None and rec["after"] == dek, inp, "the key file does not hold the DEK used for the image", {"dek": dek, "file_after": rec["after"]})
+            s.expect(dek != rec["before"] and dek not in state["deks"] and dek not in state["uid"], inp,
+                     "a build without ReuseDek got the DEK that an earlier build (or the user) left in the directory instead of a new one",
+                     {"dek": dek, "file_before_build": rec["before"], "deks_of_earlier_builds": list(state["deks"]),
+                      "across_interpreter_restart": state.get("procs", 1) > 1})
+        if dek in state["uid"]:
+            real.append(f"{int(reuse)}:u{state['uid'][dek]}")
+        else:
+            real.append(f"{int(reuse)}:c{state['labels'].setdefault(dek, len(state['labels']))}")
+        if dek is not None:
+            state["deks"].setdefault(dek, len(state["deks"]))
+    state["real"].extend(real)
+    nb0 = sum(1 for x in state["steps"] if x == "b0")
+    s.note(inp, nontrivial=nb0 >= 2, cls=item["mode"] + ("/after-restart" if state.get("procs", 1) > 1 else ""))
+    if drv is not None:
+        rows = [r for r in sources if r["altFile"] and r["kind"] == "hab"]
+        rows = [r for r in rows if r["scope"].endswith("get_dek_from_config")] or rows
+        if not rows:
+            s.compare(inp, "CsfHabSegment.get_dek_from_config chooses between a draw and the key file", "no such row in Generated.secretSources",
+                      "the source choice exercised on the implementation is missing from the generated table")
+        else:
+            init = "_" if state.get("init") is None else str(state["init"])
+            model = drv.ask(f"frun {rows[0]['i']} {init} " + "/".join(state["steps"]))
+            s.compare(inp, "/".join(state["real"]), model, "DEKs of rebuilds into one directory differ from the model `runF` with the guard kind of the generated table")
+
+
+def parse_sources(line):
+    rows = []
+    if line and line not in ("-", "bad-op"):
+        for row in line.split(";"):
+            i, kind, scope, var, loc, guard, alt = row.split("|")
+            rows.append({"i": int(i), "kind": kind, "scope": scope, "var": var, "loc": loc, "guard": guard, "altFile": alt == "1"})
+    return rows
+
+
+def new_dir_state():
+    return {"steps": [], "real": [], "uid": {}, "labels": {}, "deks": {}, "init": None, "procs": 1}
+
+
+def stream_samedir(ck, drv, w, scratch):
+    """in-process part; returns what the restart stream continues in fresh interpreters"""
+    s = ck.stream("same_dir_rebuilds", SAMEDIR_RULE)
+    sources = parse_sources(drv.ask("sources")) if drv is not None else []
+    ck.extra["source_choice_table"] = [f"{r['scope']}.{r['var']} guard={r['guard']} alt_reads_file={r['altFile']}" for r in sources]
+    rng = ck.rng
+    items = [gen_samedir(rng, i, scratch, "helper") for i in range(ck.budget(120, 1500))]
+    if HAB_DATA:
+        items += [gen_samedir(rng, 100000 + i, scratch, "container") for i in range(ck.budget(8, 60))]
+    cont = []
+    for i in range(0, len(items), 40):
+        chunk = items[i:i + 40]
+        for item, res in zip(chunk, w.ask({"cmd": "samedir", "items": chunk})):
+            st = new_dir_state()
+            check_samedir(ck, s, drv, sources, item, res["steps"], st)
+            # keep a few directories for the fresh interpreters (the rest is removed to save space)
+            if len([c for c in cont if c[0]["mode"] == item["mode"]]) < (2 if item["mode"] == "container" else 4):
+                cont.append((item, st))
+            else:
+                import shutil
+                shutil.rmtree(item["dir"], ignore_errors=True)
+    return s, sources, cont
+
+
+def stream_restart(ck, scratch, samedir=None, drv=None):
     s = ck.stream("restart", "PARTIAL: two fresh interpreters without the counting RNG build the same list of artifacts; no self-chosen value of one "
                   "process may occur in the other (or twice in one).  Agreement would be a violation; disagreement proves nothing about entropy; "
                   "non-trivial = artifact with at least one self-chosen value")
@@ -1045,6 +1256,12 @@ def stream_restart(ck, scratch):
         w = WorkerProc(scratch, patch=False, reuse=True)
         try:
             out = w.ask({"cmd": "histories", "items": [{"id": r, "builds": builds}]})[0]
+            if samedir is not None:
+                s_sd, sources, cont = samedir
+                for item, st in cont:
+                    nxt = dict(item, fresh=False, steps=["b0", "b0"], id=f"{item['id']}r{r}")
+                    st["procs"] += 1
+                    check_samedir(ck, s_sd, drv, sources, nxt, w.ask({"cmd": "samedir", "items": [nxt]})[0]["steps"], st)
         finally:
             w.close()
         for bi, (spec, b) in enumerate(zip(builds, out["builds"])):
@@ -1124,9 +1341,10 @@ def run(ck):
         ck.extra["sites_exercised"] = {t["loc"] + ("<" + t["via"] if t["via"] else ""): hits.get(t["i"], 0) for t in tab
                                        if t["kind"] in ("sb1", "sb2", "mbi", "otfad", "iee", "bee", "hab", "filler")}
         ck.extra["opaque_self_chosen_values"] = opaque
+        samedir = stream_samedir(ck, drv, w, scratch)
     finally:
         w.close()
-    stream_restart(ck, scratch)
+    stream_restart(ck, scratch, samedir=samedir, drv=drv)
 
 
 def replay(ck, data):
@@ -1134,15 +1352,38 @@ def replay(ck, data):
     s = ck.stream("histories", "replay of recorded histories; " + HIST_RULE)
     s2 = ck.stream("reuse_model", "replay: MBI steps of the recorded histories on the object-state model")
     slots = parse_slots(drv.ask("slots")) if drv is not None else []
-    hists = []
+    hists, samedirs = [], []
     for c in data.get("cases", []):
         inp = c.get("input")
         if isinstance(inp, dict) and "history" in inp:
             hists.append([inp["history"]])
         elif isinstance(inp, dict) and "histories" in inp:
             hists.append(inp["histories"])
+        elif isinstance(inp, dict) and "samedir" in inp:
+            samedirs.append(inp)
         elif isinstance(inp, dict) and "builds" in inp:
             hists.append([inp["builds"]])
+    if samedirs:
+        s3 = ck.stream("same_dir_rebuilds", "replay; " + SAMEDIR_RULE)
+        sources = parse_sources(drv.ask("sources")) if drv is not None else []
+        for k, inp in enumerate(samedirs[:5]):
+            sd = inp["samedir"]
+            # the recorded steps of the directory, then - as recorded - continued in a fresh interpreter
+            earlier = [x for x in inp.get("earlier_steps_in_this_directory", [])]
+            item = {"id": f"rp{k}", "dir": os.path.join(scratch, f"replay_same_{k}"), "mode": sd["mode"], "bits": sd["bits"], "init": sd.get("init"),
+                    "fresh": True, "steps": sd["steps"] if not earlier else ["b0", "b0"]}
+            st = new_dir_state()
+            for proc in range(2 if earlier else 1):
+                w = WorkerProc(scratch, patch=(proc == 0), reuse=True)
+                try:
+                    it = dict(item, fresh=(proc == 0), id=f"rp{k}p{proc}")
+                    if proc:
+                        st["procs"] += 1
+                    check_samedir(ck, s3, drv, sources, it, w.ask({"cmd": "samedir", "items": [it]})[0]["steps"], st)
+                finally:
+                    w.close()
+        if not hists:
+            return
     if not hists:  # import-time failure or nothing to replay: run the import stream, it needs no input
         w = WorkerProc(scratch, patch=True)
         try:
